@@ -10,6 +10,7 @@ THEOREMS = [
     "XcmModel.C16.C16_quiet_when_idle", "XcmModel.C16.C16_readable_when_met",
     "XcmModel.C16.C16_btcp_ready_events", "XcmModel.C16.C16_btcp_terminal_rings",
     "XcmModel.C16.C16_server_events", "XcmModel.C16.C16_ux_events",
+    "XcmModel.C16btls.C16_btls_idle_silent", "XcmModel.C16btls.C16_btls_quiet_after_eagain", "XcmModel.C16btls.C16_btls_bell_reason",
 ]
 
 
@@ -113,10 +114,17 @@ def run(ctx):
     ctx.sample({"harness": "sys_quiet", "cmds": cmds[:2], "impl_out": out[:2]}, cap=8)
     ctx.assumptions += ["K-epoll: level-triggered epoll semantics; an eventfd(1) that is never read stays readable",
                         "the control interface's descriptors are idle (no ctl client) during sys_quiet"]
+    # the TLS connection machine (xcm_tp_btls.c) against the Lean Btls model, with its monitors
+    from gen import btls as _btls
+    _btls.run_part(ctx, 10 if ctx.tier == "quick" else 300, exhaustive=True)
+    ctx.rule += (" unit_btls: the real xcm_tp_btls.c with scripted OpenSSL answers vs the Lean Btls model: every OpenSSL event x first observer x state x verdict, conn_update for every reachable (state, ssl_condition, ssl_wants) x condition x SSL_has_pending, seeded random histories; stickiness/discoverer/rc-range/gating monitors.")
 
 
 def replay(path):
     r = json.load(open(path))
+    if r.get("harness") == "unit_btls":
+        from gen import btls as _btls
+        return _btls.replay(r)
     h = r.get("harness", "")
     if h == "sys_quiet":
         class C:
